@@ -75,7 +75,7 @@ def record(ctx, w, label, counts, env=None, **kw):
 def check(ctx):
     thorough = ctx.tier == "thorough"
     vlib.build_harness()
-    w = vlib.workdir(ctx.pid.lower())
+    w = vlib.workdir(ctx.pid.lower() + ("_thorough" if thorough else ""))   # the tiers may run side by side
     models(ctx, thorough)
     rnd = random.Random(ctx.seed)
     counts = {}
